@@ -524,7 +524,11 @@ def dimacs_text(s, rng):
         k = rng.randint(0, min(3, nv))
         vs = rng.sample(range(1, nv + 1), k)
         lines.append(" ".join(str(v if rng.random() < .5 else -v) for v in vs) + (" 0" if vs else "0"))
-    return "\n".join(lines) + "\n"
+    text = "\n".join(lines) + "\n"
+    if s % 2 == 1:          # file size is a dimension of its own (common.file_sizes): every other file is padded with comment lines
+        fs = common.file_sizes()
+        text = common.pad_text(text, "cnf", fs[(s // 2) % len(fs)])
+    return text
 
 
 def sweep_case(info):
